@@ -519,7 +519,19 @@ class Parser:
     #   generate string from token sequence, with macro expansion
     #
     def get_text_expanded(self, toks):
+        # NB: the tokens may be expanded a second time by the caller, e.g. for
+        # headings --> undo side effects of this expansion:
+        # detached text like footnotes, rotation of the placeholder lists
+        extracted = getattr(self, 'extracted', [])
+        settings = self.parms.parser_lang_settings.values()
+        lists = [lst for s in settings for lst in (s.math_repl_inline,
+                            s.math_repl_display, s.lang_change_repl)]
+        saved = [lst.copy() for lst in lists]
+        self.extracted = extracted.copy()
         toks = self.expand_sequence(scanner.Buffer(toks.copy()))
+        self.extracted = extracted
+        for lst, sav in zip(lists, saved):
+            lst[:] = sav
         return self.get_text_direct(toks)
 
     #   remove all blank text lines, which contain at least one ActionToken
